@@ -39,7 +39,10 @@ RULE = ('look-ahead: exhaustive over kind x Fs x application x channels (+ set-a
         'model, kiss_fft vs DFT) and 1e-9 (model vs textbook definition); round trips: delay grid exhaustive over Fs x channels x application x 9 frame durations x '
         'forced mode, fidelity / channel-identity templates drawn once from the configuration space (Fs, channels, '
         'application, bandwidth, bitrate >= floor, frame duration, complexity, VBR/CVBR/CBR, sample format, signal family, '
-        'stereo relation); per template VERIF_SEED picks one of 16 calibrated pool signal seeds (every metric compared with '
+        'stereo relation), plus 192 stereo-encoder / mono-stream templates (FORCE_CHANNELS(1) or a bitrate where the encoder picks '
+        'mono) x 20..120 ms x every mode, 320 random draws over the option axes (forced channels, decoder channel count, decoder '
+        'gain, FEC, mid-stream alternation of mode / bitrate / channels, signal hint; all feasible value pairs of 13 axes covered) '
+        'and 50 multistream / projection templates at 2.5..60 ms; per template VERIF_SEED picks one of 16 calibrated pool signal seeds (every metric compared with '
         'the unchanged tree\'s value for the same line) and, for the delay grid, one fresh signal seed (property\'s own delay '
         'numbers only); encoder routing: surround layouts + random encoder-valid layouts with repeated / muted channels; '
         'a case is distinct by its template id')
